@@ -382,6 +382,8 @@ def run(ctx):
     # (shared with C01.R8)
     from .C01 import r8_time_grid
     r8_time_grid(ctx, rule='C02.R8')
+    from .C01 import r2_bucket_index
+    r2_bucket_index(ctx, rule='C02.R8')     # ... and the bucket of a timestamp is the same function of it wherever it is computed (C01.R2)
     # (R9) ... and only if the scan window is stepped, never repositioned, and the bound follows the popped event (shared with C01.R5)
     from .C01 import r5_fetch_skeleton
     r5_fetch_skeleton(ctx, rule='C02.R9')
